@@ -1,22 +1,37 @@
 #!/usr/bin/env python3
-"""seedmatrix.py — run the static checks against every change kept under /verif/seeded/ (in a scratch
-worktree of /repo HEAD, removed afterwards), update each meta.json's static_checks and print the matrix."""
+"""seedmatrix.py [-j N] [id ...] — run the static checks against every change kept under /verif/seeded/ (each worker in
+its own scratch worktree of /repo HEAD, removed afterwards), update each meta.json's static_checks and print the matrix."""
 import json, os, re, subprocess, tempfile, shutil, glob, sys
+from concurrent.futures import ThreadPoolExecutor
+import queue
 cenv = dict(os.environ, PATH="/opt/veriftools/go1.26.8/bin:" + os.environ["PATH"], GOTOOLCHAIN="local", GOFLAGS="-mod=mod", GOPROXY="off", GOWORK="off")
+BIN = os.environ.get("VC_BIN", "/verif/bin/vuegocheck")
 def sh(cmd, cwd=None, env=None):
     p = subprocess.run(["bash", "-c", cmd], cwd=cwd, env=env or os.environ, stdout=subprocess.PIPE, stderr=subprocess.STDOUT, text=True)
     return p.returncode, p.stdout
-wt = tempfile.mkdtemp(prefix="seedmatrix-"); os.rmdir(wt)
-rc, out = sh(f"git -C /repo worktree add -q --detach {wt} HEAD"); assert rc == 0, out
-rows = []
-try:
-    for d in sorted(glob.glob("/verif/seeded/*/")):
+args = sys.argv[1:]
+J = 6
+if args[:1] == ["-j"]:
+    J = int(args[1]); args = args[2:]
+dirs = [f"/verif/seeded/{a}/" for a in args] or sorted(glob.glob("/verif/seeded/*/"))
+dirs = [d for d in dirs if os.path.exists(d + "meta.json")]
+wts = queue.Queue()
+all_wts = []
+for i in range(min(J, len(dirs))):
+    wt = tempfile.mkdtemp(prefix="seedmatrix-"); os.rmdir(wt)
+    rc, out = sh(f"git -C /repo worktree add -q --detach {wt} HEAD"); assert rc == 0, out
+    wts.put(wt); all_wts.append(wt)
+def one(d):
+    wt = wts.get()
+    try:
         meta = json.load(open(d + "meta.json"))
         rc, out = sh(f"git apply {d}patch.diff", cwd=wt)
         if rc != 0:
-            rows.append((meta["id"], "patch no longer applies", [], False)); continue
-        rc, out = sh(f"/verif/bin/vuegocheck -property all -no-evidence -repo {wt} -verif /verif", env=cenv)
+            return (meta["id"], "patch no longer applies", [], False)
+        rc, out = sh(f"{BIN} -property all -no-evidence -repo {wt} -verif /verif", env=cenv)
         sh("git checkout -q -- . && git clean -fdq", cwd=wt)
+        if "UNDECIDED: type errors" in out or "UNDECIDED: packages.Load" in out:
+            return (meta["id"], "DOES NOT BUILD at this HEAD (patch needs rebasing)", [], False)
         fired = sorted(set(re.findall(r"^\s+(C\d+\.R\d+[a-z]?) ", out, re.M)))
         props = sorted(set(re.findall(r"^VIOLATION property=(C\d+)", out, re.M)))
         und = sorted(set(re.findall(r"^UNDECIDED: property=(C\d+)", out, re.M)))
@@ -24,10 +39,19 @@ try:
         meta["static_checks"] = {"caught_for_its_property": caught, "rules_that_fire": fired, "properties_with_violation": props, "undecided_properties": und,
                                  "first_reports": [l.strip()[:300] for l in out.splitlines() if re.match(r"^\s+C\d+\.R", l)][:4]}
         json.dump(meta, open(d + "meta.json", "w"), indent=1)
-        rows.append((meta["id"], meta["breaks_property"], fired, caught))
+        return (meta["id"], meta["breaks_property"], fired, caught)
+    finally:
+        wts.put(wt)
+try:
+    with ThreadPoolExecutor(max_workers=J) as ex:
+        rows = list(ex.map(one, dirs))
 finally:
-    sh(f"git -C /repo worktree remove --force {wt}"); shutil.rmtree(wt, ignore_errors=True)
-n = sum(1 for r in rows if r[3])
+    for wt in all_wts:
+        sh(f"git -C /repo worktree remove --force {wt}"); shutil.rmtree(wt, ignore_errors=True)
+retired = {json.load(open(d + "meta.json"))["id"] for d in dirs if json.load(open(d + "meta.json")).get("retired")}
+live = [r for r in rows if r[0] not in retired]
+n = sum(1 for r in live if r[3])
 for r in rows:
-    print(f"{r[0]:8} {r[1]:6} {'CAUGHT' if r[3] else 'missed':7} {','.join(r[2])}")
-print(f"caught {n}/{len(rows)}")
+    tag = "retired" if r[0] in retired else ("CAUGHT" if r[3] else "missed")
+    print(f"{r[0]:8} {r[1]:6} {tag:7} {','.join(r[2])}")
+print(f"caught {n}/{len(live)}" + (f"  (+{len(retired)} retired: no longer property-breaking at this HEAD, see their meta.json)" if retired else ""))
